@@ -41,18 +41,20 @@ Proof. intros Hr Hk He. unfold curk, bAt. now rewrite Hr, Hk, He. Qed.
 
 Lemma in_progress_not_complete s k : is_in_progress s k = true -> kind_of s k <> KComplete.
 Proof. unfold is_in_progress. destruct (kind_of s k); discriminate. Qed.
+Lemma in_progress_unsettled s k : is_in_progress s k = true -> unsettled s k.
+Proof. unfold is_in_progress, unsettled. destruct (kind_of s k); try discriminate; intros _; repeat split; discriminate. Qed.
 Lemma in_progress_not_idle s k : is_in_progress s k = true -> ~ idle s k.
 Proof. unfold is_in_progress, idle. destruct (kind_of s k); try discriminate; intros _ [H1 H2]; congruence. Qed.
 
 (* rules in progress (the set X) change their result; every other rule keeps result and state kind *)
 Lemma BC_change (X : key -> bool) s s' : is_epoch s' = is_epoch s -> (forall k, ri_cancelled (rinfo_of s' k) = false) ->
   (forall k, X k = false -> res_of s' k = res_of s k /\ kind_of s' k = kind_of s k) ->
-  (forall k, X k = true -> is_in_progress s k = true /\ is_in_progress s' k = true /\ bAt s' k = bAt s k /\
-                    (bAt s' k <> 0 -> res_sig (res_of s' k) = r_sig (rules k))) ->
+  (forall k, X k = true -> unsettled s k /\ is_in_progress s' k = true /\ bAt s' k = bAt s k /\
+                    (bAt s' k <> 0 -> res_sig (res_of s' k) = r_sig (rules k)) /\ (forall d, In d (deps s' k) -> d_single d = false)) ->
   (forall k, X k = true -> (stored s' k = stored s k /\ cAt s' k = cAt s k) \/ cAt s' k = is_epoch s) ->
   BC s -> BC s'.
 Proof.
-  intros He Hnc H1 H2 H3 [C1 C2 C3 C4 C5 C6 C7].
+  intros He Hnc H1 H2 H3 [C1 C2 C3 C4 C5 C6 C7 C8].
   assert (Hidle : forall k, idle s' k -> X k = false).
   { intros k Hi. destruct (X k) eqn:Hx; auto. destruct (H2 k Hx) as (_ & Hp & _). exfalso. now apply (in_progress_not_idle s' k Hp). }
   assert (Hcur : forall k, X k = false -> (curk s' k <-> curk s k)).
@@ -60,7 +62,7 @@ Proof.
   assert (HcurX : forall k, curk s' k -> X k = false).
   { intros k [Hc _]. destruct (X k) eqn:Hx; auto. destruct (H2 k Hx) as (_ & Hp' & _). exfalso. now apply (in_progress_not_complete s' k Hp'). }
   assert (HcurX0 : forall k, curk s k -> X k = false).
-  { intros k [Hc _]. destruct (X k) eqn:Hx; auto. destruct (H2 k Hx) as (Hp & _). exfalso. now apply (in_progress_not_complete s k Hp). }
+  { intros k [Hc _]. destruct (X k) eqn:Hx; auto. destruct (H2 k Hx) as ((_ & _ & Hp) & _). exfalso. now apply Hp. }
   assert (Hmono : forall x, (stored s' x = stored s x /\ cAt s x <= cAt s' x) \/ cAt s' x = is_epoch s).
   { intros x. destruct (X x) eqn:Hx.
     - destruct (H3 x Hx) as [[E1 E2]|E]; [left; split; auto; lia|now right].
@@ -72,10 +74,10 @@ Proof.
     + destruct (H2 k Hx) as (_ & _ & Hb & _). rewrite Hb. split; [apply C3|]. destruct (H3 k Hx) as [[_ E]|E]; [rewrite E; apply C3|rewrite E; lia].
     + destruct (H1 k Hx) as [Hr _]. unfold cAt, bAt. rewrite Hr. apply C3.
   - intros k. rewrite He. destruct (X k) eqn:Hx.
-    + destruct (H2 k Hx) as (Hp & _ & Hb & _). rewrite Hb. intros Hbe. exfalso. apply (in_progress_not_complete s k Hp). now apply C4.
+    + destruct (H2 k Hx) as ((_ & _ & Hp) & _ & Hb & _). rewrite Hb. intros Hbe. exfalso. apply Hp. now apply C4.
     + destruct (H1 k Hx) as [Hr Hk]. unfold bAt. rewrite Hr, Hk. apply C4.
   - intros k. destruct (X k) eqn:Hx.
-    + now destruct (H2 k Hx) as (_ & _ & _ & Hs).
+    + now destruct (H2 k Hx) as (_ & _ & _ & Hs & _).
     + destruct (H1 k Hx) as [Hr _]. unfold bAt. rewrite Hr. apply C5.
   - intros k Hi Hb. pose proof (Hidle k Hi) as Hx. destruct (H1 k Hx) as [Hr Hk].
     assert (Hi0 : idle s k) by (unfold idle in *; now rewrite <- Hk).
@@ -90,6 +92,9 @@ Proof.
   - intros k Hc d Hd. pose proof (HcurX k Hc) as Hx. destruct (H1 k Hx) as [Hr Hk]. apply (Hcur k Hx) in Hc.
     assert (Hd0 : In d (deps s k)) by (unfold deps in *; now rewrite <- Hr). pose proof (C7 k Hc d Hd0) as Hcd.
     apply (Hcur _ (HcurX0 _ Hcd)). exact Hcd.
+  - intros k. destruct (X k) eqn:Hx.
+    + now destruct (H2 k Hx) as (_ & _ & _ & _ & Hs).
+    + destruct (H1 k Hx) as [Hr _]. unfold deps. rewrite Hr. apply C8.
 Qed.
 
 Variable rank : key -> nat.
@@ -109,7 +114,7 @@ Qed.
 
 Lemma BS_change (X : key -> bool) x s s' : is_epoch s' = is_epoch s ->
   (forall k, X k = false -> res_of s' k = res_of s k /\ kind_of s' k = kind_of s k) ->
-  (forall k, X k = true -> is_in_progress s k = true /\ is_in_progress s' k = true) ->
+  (forall k, X k = true -> unsettled s k /\ is_in_progress s' k = true) ->
   (forall rq, Sreq s' rq -> Sreq s rq) -> (forall rq, Sreq s rq -> kind_of s (sq_rule rq) = KScanning) ->
   (forall k, kind_of s k = KScanning -> ri_deferred (rinfo_of s k) <> [] \/ ri_paused (rinfo_of s k) <> [] ->
              ri_deferred (rinfo_of s' k) <> [] \/ ri_paused (rinfo_of s' k) <> []) ->
@@ -118,7 +123,7 @@ Lemma BS_change (X : key -> bool) x s s' : is_epoch s' = is_epoch s ->
 Proof.
   intros He H1 H2 HS Hsk Hrec Hp [S1 S2 S3].
   assert (HX : forall k, kind_of s k = KScanning \/ kind_of s k = KDoesNotNeedToRun \/ kind_of s k = KComplete -> X k = false).
-  { intros k Hk. destruct (X k) eqn:Hx; auto. destruct (H2 k Hx) as (Hp0 & _). unfold is_in_progress in Hp0. destruct Hk as [Hk|[Hk|Hk]]; rewrite Hk in Hp0; discriminate. }
+  { intros k Hk. destruct (X k) eqn:Hx; auto. destruct (H2 k Hx) as ((U1 & U2 & U3) & _). destruct Hk as [Hk|[Hk|Hk]]; contradiction. }
   assert (HX' : forall k, kind_of s' k = KScanning \/ kind_of s' k = KDoesNotNeedToRun \/ kind_of s' k = KComplete -> X k = false).
   { intros k Hk. destruct (X k) eqn:Hx; auto. destruct (H2 k Hx) as (_ & Hp0). unfold is_in_progress in Hp0. destruct Hk as [Hk|[Hk|Hk]]; rewrite Hk in Hp0; discriminate. }
   assert (Hcur : forall k, curk s k -> curk s' k /\ res_of s' k = res_of s k).
